@@ -75,7 +75,8 @@ def make_case(seed, idx, tier):
     if idx % 8 == 7:
         # one box whose coordinates live on wildly different scales (allowances must be per coordinate)
         d = rng.randint(2, 4)
-        pool = [[0.0, 1e9], [0.0, 1e-9], [-1e6, 1e6], [1.0, 1.0 + 1e-3], [-0.1, 0.2], [0.0, 1e-6], [-5.0, 5.0], [1e6, 1e6 + 1.0]]
+        pool = [[0.0, 1e9], [0.0, 1e-9], [-1e6, 1e6], [1.0, 1.0 + 1e-3], [-0.1, 0.2], [0.0, 1e-6], [-5.0, 5.0], [1e6, 1e6 + 1.0],
+                [0.0, 1e-16], [-3e-17, 5e-17], [1e-300, 3e-300]]  # ranges far below machine epsilon in absolute terms are ordinary boxes too
         box = {"cls": "xscale", "bounds": [list(rng.choice(pool)) for _ in range(d)]}
     cols = [gen_points(rng, b[0], b[1]) for b in box["bounds"]]
     m = max(len(c) for c in cols)
